@@ -31,6 +31,29 @@ def arrayOp (F : Facts15) (fuel : Nat) (src : Nat) (member : Option String) (kw 
     updCls r (fun c => { c with tn := match kwTypeName kw with | some s => some s | none => c.tn })
     pure r
 
+/-- `Array.customize(serializer_attrs=sa, **kw)`: `cls(serializer.customize(**sa)).customize(**kw)` -/
+def arraySA (F : Facts15) (fuel : Nat) (src : Nat) (sa kw : Kw) (ca : Option (List (String × Kw))) (caa : Option Kw) :
+    M Nat := do
+  let sc ← getCls src
+  match sc.fields with
+  | [(_, m)] => do
+    let m' ← customizeAny F fuel m sa
+    let r1 ← custComplex F fuel src [] none none
+    setSerializer F fuel r1 m' none
+    custComplex F fuel r1 kw ca caa
+  | _ => fail "ValueError"
+
+/-- `child_attrs_noexc`: everything is excluded (`child_attrs_all` gets `exc=True`) except the fields named, whose
+    entries get `exc=False` and replace the `child_attrs` entries of the same name (complex.py:486-522) -/
+def noexcPrep (ca : Option (List (String × Kw))) (caa : Option Kw) (nx : Option (List (String × Kw))) :
+    Option (List (String × Kw)) × Option Kw :=
+  match nx with
+  | none => (ca, caa)
+  | some l =>
+    (some ((l.map (fun p => (p.1, odictSet p.2 "exc" (.bool false)))).foldl
+            (fun (acc : List (String × Kw)) (p : String × Kw) => odictSet acc p.1 p.2) (ca.getD [])),
+     some (odictSet (caa.getD []) "exc" (.bool true)))
+
 /-! ## `Mandatory` (complex.py:1616-1635) -/
 
 def mandatoryKw (F : Facts15) (sc : Cls) : Kw :=
@@ -110,6 +133,19 @@ def prependMixins (F : Facts15) (mf : List (String × Nat)) (d : List (String ×
   (match F.mixinOrder with | .declared => mf.reverse | .reversed => mf).foldl
     (fun (acc : List (String × Nat)) (p : String × Nat) => odictInsert acc 0 p.1 p.2) d
 
+/-- `Attributes.order` of a field type: "an integer that's passed to `_type_info.insert()`" -/
+def orderOf (h : Heap) (t : Nat) : Option Nat :=
+  match attrOf h t "order" with
+  | some (.int i) => some i.toNat
+  | _ => none
+
+/-- "apply field order" (ComplexModelMeta.__init__): the fields without `order` keep their sequence, the others are
+    inserted at their `order`, one after the other -/
+def applyOrder (h : Heap) (fs : List (String × Nat)) : List (String × Nat) :=
+  (fs.filter (fun p => (orderOf h p.2).isSome)).foldl
+    (fun (acc : List (String × Nat)) (p : String × Nat) => listInsertAt acc ((orderOf h p.2).getD 0) p)
+    (fs.filter (fun p => (orderOf h p.2).isNone))
+
 /-- own `_variants` entry of the `Attributes` of a freshly declared class: generated by `_gen_attrs`
     (`attrs = none`) or written by the user as `class Attributes(Base.Attributes): ...` -/
 def declaredVariants (F : Facts15) (attrs : Option Kw) : Option (Option (List Nat)) :=
@@ -128,11 +164,12 @@ def subclassOp (F : Facts15) (base : Option Nat) (name : String) (ns : Option St
   guardNone (if mixins.all (fun m => match h.cls[m]? with | some mc => mc.mixin && mc.kind == .complex | none => false)
              then none else some "Exception")
   -- (an explicit body is `class Attributes(Base.Attributes)`, a generated one derives from the first base's)
-  allocBoth { own := (attrs.getD []).reverse, parent := some (match attrs with | some _ => bc.attrs | none => first.attrs),
+  -- (in a class body `nullable` and `nillable` are the same assignment: AttributesMeta.__init__)
+  allocBoth { own := ((attrs.getD []).map (fun p => if p.1 == "nullable" then ("nillable", p.2) else p)).reverse, parent := some (match attrs with | some _ => bc.attrs | none => first.attrs),
               variants := declaredVariants F attrs,
               dca := none, dcaa := none }
     (fun a => { kind := .complex, attrs := a,
-                fields := prependMixins F (mixinFields h mixins) (declaredFields F perm fields),
+                fields := applyOrder h (prependMixins F (mixinFields h mixins) (declaredFields F perm fields)),
                 orig := none, ext := ext,
                 tn := some name, ns := match ns with | some n => some n | none => first.ns,
                 modNs := "c15hist", pybase := some (base.getD F.complexRoot), target := none, mixin := asMixin,
@@ -208,6 +245,7 @@ def xmlattrOp (F : Facts15) (src : Nat) : M Nat := do
 
 inductive Op where
   | customize (src : Nat) (kw : Kw) (ca : Option (List (String × Kw))) (caa : Option Kw) (prot : Option Nat)
+      (nx : Option (List (String × Kw))) (sa : Option Kw)
   | array (src : Nat) (member : Option String) (kw : Kw) (flat iter : Bool)
   | mandatory (src : Nat)
   | subclass (base : Option Nat) (name : String) (ns : Option String) (fields : List (String × Nat)) (perm : List Nat)
@@ -219,10 +257,14 @@ inductive Op where
 
 /-- the program of an operation; `some id` = the class it returns -/
 def opProg (F : Facts15) (fuel : Nat) : Op → M (Option Nat)
-  | .customize src kw ca caa prot => do
+  | .customize src kw ca caa prot nx sa => do
     let sc ← getCls src
     let kwE ← protMerge F prot kw
-    if sc.kind.isComplex then some <$> custComplex F fuel src kwE ca caa
+    if sc.kind.isComplex then
+      match sa with
+      | some s => if sc.kind.isArray then some <$> arraySA F fuel src s kwE (noexcPrep ca caa nx).1 (noexcPrep ca caa nx).2
+                  else some <$> custComplex F fuel src kwE (noexcPrep ca caa nx).1 (noexcPrep ca caa nx).2
+      | none => some <$> custComplex F fuel src kwE (noexcPrep ca caa nx).1 (noexcPrep ca caa nx).2
     else some <$> customizeAny F fuel src kwE
   | .array src member kw flat iter => some <$> arrayOp F fuel src member kw flat iter
   | .mandatory src => some <$> mandatory F fuel src
